@@ -514,7 +514,6 @@ def unit(root='/repo'):
                 forall|j: int| 0 <= j < comp_it.rest().len() && (#[trigger] comp_it.rest()[j]) is Normal ==> normal_name(comp_it.rest()[j]->Normal_0),
             decreases comp_it.rest().len()
         """
-    MOUNT_BODY = """let ghost rest0 = comp_it.rest(); proof { assert(forall|j: int| 0 <= j < rest0.len() ==> #[trigger] rest0[j] == (path_comps(mountpoint@).len() > 0 && true) || true); }"""
     mnt = tok(Fn(PFS, PP, 'mount', props=P7, canary=True, body_resub=[KIDS_LOCKED, KIDS_OPT, STREQ],
                  requires=['self.wf(*old(hp))',
                            # the code never checks the counter: numbers stay below the limit of the VFS inode encoding only while fewer than 2^56 pseudo inodes were ever created (resource assumption)
@@ -525,9 +524,7 @@ def unit(root='/repo'):
                             Some(vi) => r is Ok && r->Ok_0 == vi.1 && self.view(*final(hp)) == vi.0,
                             None => r is Err && r->Err_0.os_code() == Some(libc::EINVAL) }) // [C07.pseudo.mount.result] exactly the missing components are created (each once, under the right parent, numbered by the counter), the inode of the last component is returned, every other node is untouched"""],
                  splices=[('for child in kids1.iter() {', 'replace', SCAN1), ('for child in kids2.iter() {', 'replace', SCAN2),
-                          ('let kids1 = ', 'before', FOUND % 'mount'),
-                          ('let new_node = self.create_inode(name, inode, Tracked(hp));', 'before', 'let ghost vb = self.view(*hp);'),
-                          ('let new_node = self.create_inode(name, inode, Tracked(hp));', 'after', 'proof { assert(new_node.ino == vb.next); assert(self.view(*hp) == add_child(vb, cur0.ino, name@)); } // [C07.pseudo.mount.created] a missing component becomes a new child of the directory reached so far')]),
+                          ('let kids1 = ', 'before', FOUND % 'mount')]),
               ['load', 'create_inode'])
     mnt.body_hooks = [OR.r28_for_owned(r"'outer:\s*for\s+(component)\s+in\s+(path\.components\(\))\s*\{", '', 'comp_it', header_extra=MOUNT_INV,
                                        mid="proof { broadcast use axiom_path_comps_normal; } #[verifier::loop_isolation(false)] 'outer:")]
